@@ -32,6 +32,10 @@ type caseSpec struct {
 	PrefixK  int    `json:"peer_key_matches_v1_prefix_bytes"` // -1: ordinary key
 	KeyIdx   int    `json:"peer_key_index,omitempty"`
 	ImplKey  int    `json:"impl_key_seed,omitempty"`
+	// Overlap: a second transport object of the process starts its own handshake
+	// (other key seed, same garbage length) between the two handshake steps of
+	// the one under test, as a node with several connections does
+	Overlap bool `json:"second_peer_starts_its_handshake_in_between,omitempty"`
 
 	TKind string `json:"tamper_kind,omitempty"`
 	Off   int    `json:"tamper_offset,omitempty"`
@@ -390,6 +394,16 @@ func runInterop(cs caseSpec, x *ctx) *transcript {
 	if !cs.ImplInit && rw.pos != 64 {
 		fail("interop/responder-overread", "RespondV2Handshake consumed %d bytes of the initiator's stream, want exactly 64", rw.pos)
 		return tr
+	}
+	if cs.Overlap {
+		q := v2transport.NewPeer()
+		q.UseReadWriter(&memRW{in: append([]byte(nil), rw.in...)})
+		cs2 := cs
+		cs2.ImplKey = cs.ImplKey + 1000
+		if err := implHandshake1(cs2, q); err != nil {
+			fail("interop/overlap/second-peer-error", "the second transport object's first handshake step returned %v", err)
+			return tr
+		}
 	}
 	copy(tr.implKey[:], rw.out[:64])
 	implGarbage := append([]byte(nil), rw.out[64:]...)
